@@ -979,6 +979,15 @@ func runPlan(o Opts) error {
 	}
 
 	planPhase("geometric histories")
+	// ---- plans made and executed by a real index.Writer (plan_writer.go)
+	wruns, wbatches := 3, 30
+	if o.Thorough() {
+		wruns, wbatches = 12, 60
+	}
+	if err := planWriterCases(w, rng, wruns, wbatches); err != nil {
+		w.Close()
+		return err
+	}
 	w.Close()
 	planPhase("writing shards")
 	return nil
